@@ -13,6 +13,7 @@ open PV PV.Model
     dns.name <msg> <off>                 → <outcome (name end)> | spec=<name>:<end>:<ptrs> or spec=none
     dns.question <msg> <index>           → <outcome (name type class off)> | spec=…
     dns.rrs <count> <off> <msg>          → <outcome (off updated)> <entry>
+    dns.answers0 <off> <msg>             → as dns.answers; the harness calls DecodeAnswers on the zero DNSEntry
     dns.process <payload>+               → per-call results and the final table
     dns.encname <name> <datalen> <off>   → ok <data> <off> | panic
     dns.encquery <id> <flags> <name> <t> → ok <msg> | panic
@@ -170,6 +171,11 @@ def handle (cmd : String) (args : List String) : Option String :=
     let (e, r) := decodeRRs noIP6 cnt (DNSEntry.empty []) m off false
     some (outcomeStr (fun (x : Int × Bool) => s!"{x.1} {x.2}") r ++ " " ++ entryStr e)
   | "dns.answers", [o, h] => do
+    let m ← fromHex h; let off ← parseInt? o
+    let (e, r) := decodeAnswers noIP6 (DNSEntry.empty []) m off
+    some (outcomeStr (fun (x : Int × Bool) => s!"{x.1} {x.2}") r ++ " " ++ entryStr e)
+  | "dns.answers0", [o, h] => do
+    -- the exported DecodeAnswers on the zero DNSEntry (nil maps = empty maps after the fix commit)
     let m ← fromHex h; let off ← parseInt? o
     let (e, r) := decodeAnswers noIP6 (DNSEntry.empty []) m off
     some (outcomeStr (fun (x : Int × Bool) => s!"{x.1} {x.2}") r ++ " " ++ entryStr e)
